@@ -34,7 +34,7 @@ theorem walkBy_cons (id : Nat) (seg0 : String) (rest : List String) (cur : List 
           cases v with
           | list xs =>
             simp only []
-            cases h4 : calcIndex (String.ofList (trimSpace inner)).toLower (key ++ ("." ++ String.ofList (trimSpace seg0.toList))) xs.length id it with
+            cases h4 : calcIndex (lowerS (String.ofList (trimSpace inner))) (key ++ ("." ++ String.ofList (trimSpace seg0.toList))) xs.length id it with
             | err e => simp
             | panic p => simp
             | ok r =>
